@@ -1,3 +1,4 @@
+import os
 """R-STRSAFE — `unsafe` text-validity sites (DESIGN.md §5): &mut str scrubbing, set_len discipline,
 from_utf8_unchecked behind the right validator."""
 from mirlib import *
@@ -121,7 +122,7 @@ def scrub(rep, f, c, rule):
                 if 'switch' in t and t.get('sty') == 'bool':
                     conds.append(Resolver(b).operand(t['switch']))
             has_mask = any(e[0] == 'bin' and e[1] in ('Eq', 'Ne') and e[2][0] == 'bin' and e[2][1] == 'BitAnd' and is_c(e[2][3], 0xC0) and is_c(e[3], 0x80) for e in conds)
-            lt_len = any(e[0] == 'bin' and e[1] == 'Lt' and e[3] == ('len', strip_ref(bytes_e)) and e[2][0] != 'bin' for e in conds)      # `i < len`, not `i + k < len`: the last byte is scrubbed too or (walked is not None and walked[0] == 'from')
+            lt_len = any(e[0] == 'bin' and e[1] == 'Lt' and e[3] == ('len', strip_ref(bytes_e)) and e[2][0] != 'bin' for e in conds) or (walked is not None and walked[0] == 'from')
 
             def min_bound(e):
                 """e == min(len(bytes), x + K) — as a call of cmp::min or written as a branch -> K"""
@@ -141,6 +142,9 @@ def scrub(rep, f, c, rule):
                     lt_min = min_bound(e[3])
             if walked is not None and walked[0] == 'range' and not has_mask and min_bound(walked[2]) is not None:
                 lt_min = min_bound(walked[2])
+            if os.environ.get('STRSAFE_DEBUG') and has_mask:
+                import sys
+                sys.stderr.write('STRSAFE %s H=%s lt_len=%s walked=%r conds=%r\n' % (name, H, lt_len, walked, conds))
             if has_mask and lt_len:
                 cont_loop = H
             elif lt_min is not None:
